@@ -43,7 +43,8 @@ def gen_text(rng, latin1=True, maxlen=8):
 
 
 UNI = ['é', 'ß', 'ü', '中', '日', '\U0001d7cf', '½', '⁄', 'Å', 'ö', '́', 'ı', 'K']
-URI_ALPHA = list('abcXYZ019-._~:/?#[]@!$&\'()*+,;=% "<>\\^`{|}AFaf') + UNI
+CTRL = [chr(c) for c in range(0x20)] + ['\x7f']     # every C0 control and DEL: escaped as %0X .. %1F, %7F
+URI_ALPHA = list('abcXYZ019-._~:/?#[]@!$&\'()*+,;=% "<>\\^`{|}AFaf') + UNI + CTRL
 
 
 def gen_uri_text(rng, maxlen=10, surrogates=False):
@@ -171,9 +172,10 @@ def gen_propval(rng, p):
         s = rng.choice(['abc', '"abc"', 'W/"x"', '', '"', 'a"', gen_text(rng, latin1=False)])
         return s, [0, s]
     if p in ('expires', 'last_modified'):
-        from falcon.util import dt_to_http
-        d = gen_datetime(rng, aware_ok=False)
-        return d, [4, dt_to_http(d)]
+        # the text the map must hold is rendered independently (a naive datetime IS UTC, an aware one is
+        # converted), not by the function under test
+        d = gen_datetime(rng)
+        return d, [4, fmt_cookie_date(d)]
     raise AssertionError(p)
 
 
@@ -581,6 +583,7 @@ def main(ctx):
     cookie_echo_checks(ctx, model, falcon, 1500 if quick else 15000)
     uri_checks(ctx, model, falcon, 6000 if quick else 60000)
     e2e(ctx, model, falcon, 150 if quick else 1500)
+    timezone_checks(ctx, model, falcon)
     report_disagreements(ctx)
 
 
@@ -612,7 +615,7 @@ def run_emit_oracles(ctx, model, hists, results, oracle_cases, oracle_meta):
 
 # --------------------------------------------------------------------------- cookies
 
-def cookie_checks(ctx, model, falcon, n):
+def cookie_checks(ctx, model, falcon, n, tag=''):
     """Single set_cookie / unset_cookie calls and short cookie-only histories: every cookie line is
     judged by the decision table (cookie_attrs_ok) / by `expired`, and echoed back through the
     request API."""
@@ -655,7 +658,7 @@ def cookie_checks(ctx, model, falcon, n):
             parsed[name] = (coded, m, line)
         o = hist[-1][0]
         ctx.count('cookie-' + o[0])
-        key = ('cookie', ci, ctx.seed)
+        key = ('cookie' + tag, ci, ctx.seed)
         if obs[-1] != ('none',):
             ctx.note_case(key, False)
             ctx.count('cookie-call-raised')
@@ -1004,6 +1007,59 @@ def run_histories_plain(ctx, model, falcon, hists, fixed=True):
     return hists, results, None
 
 
+# --------------------------------------------------------------------------- process time zone
+
+def timezone_checks(ctx, model, falcon):
+    """The date-bearing outputs under NON-UTC process time zones: falcon's contract takes a naive datetime as
+    UTC, whatever the process-local zone is (datetime.astimezone() on a naive value would take it as LOCAL time;
+    with TZ=UTC the two are bit-identical, so these checks must not only run under UTC).  Cookie Expires (naive
+    and aware) through the cookie-attribute checks, resp.expires / resp.last_modified directly and through
+    operation histories; the expected text is rendered independently (fmt_cookie_date)."""
+    import os
+    import time
+    import falcon.asgi
+    rng = ctx.rng
+    quick = ctx.tier == 'quick'
+    old = os.environ.get('TZ')
+    try:
+        for tz in ['EST5EDT', 'JST-9'] + ([] if quick else ['Australia/Lord_Howe']):
+            os.environ['TZ'] = tz
+            time.tzset()
+            if time.timezone == 0 and not time.daylight:
+                ctx.advisory.append('time zone %s not available: %r' % (tz, time.tzname))
+                continue
+            tag = '-tz-' + tz
+            cookie_checks(ctx, model, falcon, 400 if quick else 4000, tag=tag)
+            hists, results, specs = run_histories(ctx, model, falcon, 300 if quick else 3000)
+            oc, om = judge_histories(ctx, model, hists, results, specs, tag=tag)
+            run_emit_oracles(ctx, model, hists, results, oc, om)
+            for i in range(150 if quick else 1500):
+                d = gen_datetime(rng)
+                exp = fmt_cookie_date(d)
+                for cls in (falcon.Response, falcon.asgi.Response):
+                    resp = cls()
+                    resp.expires = d
+                    resp.last_modified = d
+                    resp.set_cookie('c', 'v', expires=d)
+                    line = [v for k, v in resp._wsgi_headers() if k == 'set-cookie'][0]
+                    got = (resp.get_header('Expires'), resp.get_header('Last-Modified'), parse_cookie_line(line)[2]['expires'])
+                    ctx.count('tz-date' + tag)
+                    ctx.note_case(('tz-date', tz, i, cls.__name__), True)
+                    if got != (exp, exp, exp):
+                        ctx.violation('date-not-utc',
+                                      {'what': 'a naive datetime is UTC by contract (an aware one is converted to UTC): the emitted '
+                                               'HTTP-date is not its UTC rendering under this process time zone',
+                                       'process_TZ': tz, 'datetime': repr(d), 'expected': exp, 'resp.expires': got[0],
+                                       'resp.last_modified': got[1], 'cookie_expires': got[2], 'class': cls.__name__},
+                                      key='tz-date')
+    finally:
+        if old is None:
+            os.environ.pop('TZ', None)
+        else:
+            os.environ['TZ'] = old
+        time.tzset()
+
+
 # --------------------------------------------------------------------------- URI-bearing helpers
 
 def parse_link_target(v):
@@ -1023,31 +1079,44 @@ def uri_checks(ctx, model, falcon, n):
         meta.append((kind, isv, chk, s, out))
 
     cd_cases, cd_meta = [], []
-    for i in range(n):
+    # every control character (and DEL) alone, inside ASCII text, next to non-ASCII, and in mixtures, through
+    # every URI-bearing helper and both download-name properties
+    ctrl_vals = []
+    for c in CTRL:
+        ctrl_vals += [c, 'a' + c + 'b', c + 'é', '/p' + c + '?q=' + c]
+    for _ in range(60):
+        ctrl_vals.append(''.join(rng.choice(CTRL + ['a', '/', 'é', '%', ' ']) for _ in range(rng.randint(2, 8))))
+    plan = [(v, h) for v in ctrl_vals for h in ('location', 'content_location', 'link-target', 'link-title*',
+                                                'link-anchor', 'filename')]
+    for i in range(n + len(plan)):
         resp = falcon.Response()
         r = rng.random()
+        forced = plan[i - n] if i >= n else None
+        if forced:
+            r = {'location': 0.1, 'content_location': 0.1, 'link-target': 0.4, 'link-title*': 0.55,
+                 'link-anchor': 0.62, 'filename': 0.9}[forced[1]]
         try:
             if r < 0.3:
-                s = gen_uri_text(rng)
-                which = rng.choice(['location', 'content_location'])
+                s = forced[0] if forced else gen_uri_text(rng)
+                which = forced[1] if forced else rng.choice(['location', 'content_location'])
                 setattr(resp, which, s)
                 add(which, False, True, s, resp.get_header(which.replace('_', '-')))
             elif r < 0.5:
-                s = gen_uri_text(rng)
+                s = forced[0] if forced else gen_uri_text(rng)
                 resp.append_link(s, 'next')
                 add('link-target', False, True, s, parse_link_target(resp.get_header('Link')))
             elif r < 0.6:
-                s = gen_uri_text(rng)
+                s = forced[0] if forced else gen_uri_text(rng)
                 resp.append_link('/x', 'next', title_star=('en', s))
                 v = resp.get_header('Link')
                 add('link-title*', True, True, s, v[v.index("title*=UTF-8'en'") + 16:])
             elif r < 0.65:
-                s = gen_uri_text(rng)
+                s = forced[0] if forced else gen_uri_text(rng)
                 resp.append_link('/x', 'next', anchor=s)
                 v = resp.get_header('Link')
                 add('link-anchor', False, True, s, v[v.index('anchor="') + 8:-1])
             else:
-                s = gen_filename(rng)
+                s = (forced[0] + rng.choice(['', 'é'])) if forced else gen_filename(rng)
                 which = rng.choice(['downloadable_as', 'viewable_as'])
                 setattr(resp, which, s)
                 out = resp.get_header('Content-Disposition')
